@@ -323,6 +323,15 @@ def _compare_behaviour(builds, shard, name, res: Result, w0):
         rng.shuffle(cells)
         trees += [(mi, t) for _, _, t in cells[: max(3, shard["n"] // 2)]]
         trees.append((mi, g.tree(mi, 0, "maximal")))
+        # every oneof member selected with its default value (what is emitted then depends on bookkeeping that the
+        # dataclass flavours fill differently)
+        from ..values import default_leaf
+        for grp, members in mi.oneofs.items():
+            for n in members:
+                trees.append((mi, {n: default_leaf(mi.field(n))}))
+        for fi_ in mi.fields:
+            if fi_.label == "optional":
+                trees.append((mi, {fi_.number: default_leaf(fi_)}))
         trees += [(mi, g.tree(mi, 0, "random")) for _ in range(max(2, shard["n"] // len(msgs)))]
     for mi, tree in trees:
         try:
